@@ -5,6 +5,12 @@ package index
 import (
 	"encoding/binary"
 	"fmt"
+	"regexp/syntax"
+
+	"github.com/grafana/regexp"
+
+	"github.com/sourcegraph/zoekt"
+	"github.com/sourcegraph/zoekt/query"
 )
 
 // Verification hook for property C01, layer L12: the in-memory b-tree over the sorted ngram section and
@@ -60,4 +66,28 @@ func VerifBtree(bucketSize, v int, ngrams []uint64, queries []uint64) (shape str
 		}
 	}
 	return bt.String(), finds, gets
+}
+
+// VerifWordMatches runs wordMatchTree.matches (the \bLITERAL\b fast path) on the given bytes and returns the byte
+// offsets of the matches it reports. data must be non-empty (the content provider is bypassed by presetting its buffer).
+func VerifWordMatches(data []byte, word string) []uint32 {
+	var st zoekt.Stats
+	cp := &contentProvider{stats: &st, _data: data}
+	w := &wordMatchTree{word: word}
+	w.matches(cp, costRegexp, nil)
+	var out []uint32
+	for _, m := range w.found {
+		out = append(out, m.byteOffset)
+	}
+	return out
+}
+
+// VerifWordFastPath reports whether newMatchTree would use the fast path for \b<word>\b (case sensitive, content).
+func VerifWordFastPath(word string) bool {
+	re, err := syntax.Parse(`\b`+regexp.QuoteMeta(word)+`\b`, syntax.ClassNL|syntax.PerlX|syntax.UnicodeGroups)
+	if err != nil {
+		return false
+	}
+	_, ok := regexpToWordMatchTree(&query.Regexp{Regexp: re, CaseSensitive: true}, matchTreeOpt{})
+	return ok
 }
